@@ -90,7 +90,8 @@ class Prog:
 X = ["PUSH0", "CALLDATALOAD"]
 Y = [("push", 32), "CALLDATALOAD"]
 
-PRANK_LETTERS = ["prank(a)", "prank(a,o)", "start(a)", "start(a,o)", "stop", "prank(x)", "call", "static", "create", "cheat", "helper", "branchy"]
+PRANK_LETTERS = ["prank(a)", "prank(a,o)", "start(a)", "start(a,o)", "stop", "prank(x)", "call", "static", "create", "cheat", "helper", "branchy", "eoa"]
+EOA = 0xE0AE  # an account without code
 
 
 def emit_prank_letter(p, l, k):
@@ -126,6 +127,10 @@ def emit_prank_letter(p, l, k):
         p.out_from_mem(0x200, 2)
     elif l == "cheat":
         p.items += e2e.vm("deal(address,uint256)", [("push", 0x99)], [("push", 1)])
+    elif l == "eoa":
+        # a call to an account without code is a call: it uses up a one-shot prank (nothing observes the sender, the next call does)
+        p.items += ["PUSH0", "PUSH0", "PUSH0", "PUSH0", "PUSH0", ("push", EOA), ("push", 0xFFFF), "CALL"]
+        p.out_top()
     elif l == "helper":
         p.items += [("push", 128), ("push", 0x200), "PUSH0", "PUSH0", "PUSH0", ("push", H), ("push", 0xFFFF), "CALL"]
         p.out_top()
@@ -160,7 +165,7 @@ PGRID = [{"x": v} for v in (0, A1, ROOT, O1, 2**160 + A1)]
 def useful(seq):
     """sequences with at least one observation after a prank-family letter"""
     obs = [i for i, l in enumerate(seq) if l in ("call", "static", "create", "helper", "branchy")]
-    pr = [i for i, l in enumerate(seq) if l not in ("call", "static", "create", "helper", "cheat", "branchy")]
+    pr = [i for i, l in enumerate(seq) if l not in ("call", "static", "create", "helper", "cheat", "branchy", "eoa")]
     return bool(obs) and bool(pr) and min(pr) < max(obs)
 
 
